@@ -645,6 +645,17 @@ var ErrRefused = os.NewSyscallError("connect", syscall.ECONNREFUSED)
 //go:norace
 func (n *Net) Dial(caddr *net.TCPAddr, saddr string) (*Conn, error) {
 	simrt.Gate("net.dial", nil)
+	c, err := n.dial(caddr, saddr)
+	if err != nil {
+		// a refusal costs a round trip: a caller that retries in a loop must
+		// not be able to keep the simulated clock from advancing
+		time.Sleep(time.Millisecond)
+	}
+	return c, err
+}
+
+//go:norace
+func (n *Net) dial(caddr *net.TCPAddr, saddr string) (*Conn, error) {
 	simrt.RaceOff()
 	defer simrt.RaceOn()
 	n.mu.Lock()
